@@ -73,7 +73,7 @@ def gen_cases(tier):
     # dialect-specific file extensions with NO explicit output_mode (the mode is an argument, never inferred from the file name),
     # and a source directory whose own name contains dots
     for tk in ("t3", "t1"):
-        for name in ("e.hql", "f.bql", "d.ddl", "a.sql"):
+        for name in ("e.hql", "f.bql", "d.ddl", "a.sql", "noext"):  # (noext: no extension to cut, although the DIRECTORY name has dots)
             for ts in ("missing", "empty"):
                 for dump in (False, True):
                     for si in (2, 5):
